@@ -526,7 +526,8 @@ def _case(ck, i):
     # iteration counts hidden by the public wrappers are recovered from the traces
     for res in (eg, sg):
         if res["exc"] is None and res["nit"] < 0:
-            res["nit"] = max([t[0] for t in res["trace"]] + [0]) if res["trace"] else -1
+            res["nit"] = max([t[0] for t in res["trace"]] + [0]) if res["trace"] else \
+                (res["info"] if res["info"] > 0 else -1)       # info > 0 is the iteration count
     # calibration: the real eager solver on a right hand side perturbed at rounding level
     pert = None
     if s["klass"] not in ("exact",) and s.get("kind") != "zero" and eg["exc"] is None:
